@@ -91,7 +91,7 @@ seq_t dtw_distance(seq_t *s1, idx_t l1,
     idx_t dl;
     // DTWPruned
     idx_t sc = 0;
-    idx_t ec = 0;
+    idx_t ec = settings->psi_2b;  // border cells up to psi_2b are live predecessors of row 0
     bool smaller_found;
     idx_t ec_next;
     // signal(SIGINT, dtw_int_handler); // not compatible with OMP
@@ -251,7 +251,7 @@ seq_t dtw_distance(seq_t *s1, idx_t l1,
                 #ifdef DTWDEBUG
                 printf("dtw[%zu] = %f > %f\n", curidx, dtw[curidx], max_dist);
                 #endif
-                if (!smaller_found) {
+                if (!smaller_found && i >= settings->psi_1b) {
                     sc = j + 1;
                 }
                 if (j >= ec) {
@@ -328,7 +328,7 @@ seq_t dtw_distance_ndim(seq_t *s1, idx_t l1,
     idx_t dl;
     // DTWPruned
     idx_t sc = 0;
-    idx_t ec = 0;
+    idx_t ec = settings->psi_2b;  // border cells up to psi_2b are live predecessors of row 0
     bool smaller_found;
     idx_t ec_next;
     // signal(SIGINT, dtw_int_handler); // not compatible with OMP
@@ -495,7 +495,7 @@ seq_t dtw_distance_ndim(seq_t *s1, idx_t l1,
                 #ifdef DTWDEBUG
                 printf("dtw[%zu] = %f > %f\n", curidx, dtw[curidx], max_dist);
                 #endif
-                if (!smaller_found) {
+                if (!smaller_found && i >= settings->psi_1b) {
                     sc = j + 1;
                 }
                 if (j >= ec) {
@@ -568,7 +568,7 @@ seq_t dtw_distance_euclidean(seq_t *s1, idx_t l1,
     idx_t dl;
     // DTWPruned
     idx_t sc = 0;
-    idx_t ec = 0;
+    idx_t ec = settings->psi_2b;  // border cells up to psi_2b are live predecessors of row 0
     bool smaller_found;
     idx_t ec_next;
     // signal(SIGINT, dtw_int_handler); // not compatible with OMP
@@ -722,7 +722,7 @@ seq_t dtw_distance_euclidean(seq_t *s1, idx_t l1,
                 #ifdef DTWDEBUG
                 printf("dtw[%zu] = %f > %f\n", curidx, dtw[curidx], max_dist);
                 #endif
-                if (!smaller_found) {
+                if (!smaller_found && i >= settings->psi_1b) {
                     sc = j + 1;
                 }
                 if (j >= ec) {
@@ -796,7 +796,7 @@ seq_t dtw_distance_ndim_euclidean(seq_t *s1, idx_t l1,
     idx_t dl;
     // DTWPruned
     idx_t sc = 0;
-    idx_t ec = 0;
+    idx_t ec = settings->psi_2b;  // border cells up to psi_2b are live predecessors of row 0
     bool smaller_found;
     idx_t ec_next;
     // signal(SIGINT, dtw_int_handler); // not compatible with OMP
@@ -958,7 +958,7 @@ seq_t dtw_distance_ndim_euclidean(seq_t *s1, idx_t l1,
                 #ifdef DTWDEBUG
                 printf("dtw[%zu] = %f > %f\n", curidx, dtw[curidx], max_dist);
                 #endif
-                if (!smaller_found) {
+                if (!smaller_found && i >= settings->psi_1b) {
                     sc = j + 1;
                 }
                 if (j >= ec) {
@@ -1056,7 +1056,7 @@ seq_t dtw_warping_paths_ndim(seq_t *wps,
     }
     // DTWPruned
     idx_t sc = 0;
-    idx_t ec = 0;
+    idx_t ec = settings->psi_2b;  // border cells up to psi_2b are live predecessors of row 0
     idx_t ec_next;
     bool smaller_found;
 
@@ -1144,7 +1144,7 @@ seq_t dtw_warping_paths_ndim(seq_t *wps,
                 smaller_found = true;
                 ec_next = ci + 1;
             } else {
-                if (!smaller_found)
+                if (!smaller_found && ri >= settings->psi_1b)
                     sc = ci + 1;
                 if (ci >= ec)
                     break;
@@ -1194,7 +1194,7 @@ seq_t dtw_warping_paths_ndim(seq_t *wps,
                 smaller_found = true;
                 ec_next = ci + 1;
             } else {
-                if (!smaller_found)
+                if (!smaller_found && ri >= settings->psi_1b)
                     sc = ci + 1;
                 if (ci >= ec)
                     break;
@@ -1244,7 +1244,7 @@ seq_t dtw_warping_paths_ndim(seq_t *wps,
                 smaller_found = true;
                 ec_next = ci + 1;
             } else {
-                if (!smaller_found)
+                if (!smaller_found && ri >= settings->psi_1b)
                     sc = ci + 1;
                 if (ci >= ec)
                     break;
@@ -1304,7 +1304,7 @@ seq_t dtw_warping_paths_ndim(seq_t *wps,
                 smaller_found = true;
                 ec_next = ci + 1;
             } else {
-                if (!smaller_found)
+                if (!smaller_found && ri >= settings->psi_1b)
                     sc = ci + 1;
                 if (ci >= ec)
                     break;
@@ -1435,7 +1435,7 @@ seq_t dtw_warping_paths_ndim_euclidean(seq_t *wps,
                         DTWSettings *settings) {
     // DTWPruned
     idx_t sc = 0;
-    idx_t ec = 0;
+    idx_t ec = settings->psi_2b;  // border cells up to psi_2b are live predecessors of row 0
     idx_t ec_next;
     bool smaller_found;
 
@@ -1519,7 +1519,7 @@ seq_t dtw_warping_paths_ndim_euclidean(seq_t *wps,
                 smaller_found = true;
                 ec_next = ci + 1;
             } else {
-                if (!smaller_found)
+                if (!smaller_found && ri >= settings->psi_1b)
                     sc = ci + 1;
                 if (ci >= ec)
                     break;
@@ -1570,7 +1570,7 @@ seq_t dtw_warping_paths_ndim_euclidean(seq_t *wps,
                 smaller_found = true;
                 ec_next = ci + 1;
             } else {
-                if (!smaller_found)
+                if (!smaller_found && ri >= settings->psi_1b)
                     sc = ci + 1;
                 if (ci >= ec)
                     break;
@@ -1621,7 +1621,7 @@ seq_t dtw_warping_paths_ndim_euclidean(seq_t *wps,
                 smaller_found = true;
                 ec_next = ci + 1;
             } else {
-                if (!smaller_found)
+                if (!smaller_found && ri >= settings->psi_1b)
                     sc = ci + 1;
                 if (ci >= ec)
                     break;
@@ -1682,7 +1682,7 @@ seq_t dtw_warping_paths_ndim_euclidean(seq_t *wps,
                 smaller_found = true;
                 ec_next = ci + 1;
             } else {
-                if (!smaller_found)
+                if (!smaller_found && ri >= settings->psi_1b)
                     sc = ci + 1;
                 if (ci >= ec)
                     break;
